@@ -96,6 +96,14 @@ inductive PrTok
   | toStreamer                -- `streamer<T>::print(os, t)`
   deriving DecidableEq, Repr
 
+/-- what the end-of-life and forbidden-call reports insert into their message. -/
+inductive RTok
+  | reason | name | loc | values
+  | minOnce | minTimes (n : Nat)
+  | never | once | times (n : Nat)
+  | text
+  deriving DecidableEq, Repr
+
 /-- what `hexdump` inserts into the stream, manipulators included. -/
 inductive HTok
   | sentry                 -- `stream_sentry s(os)`
